@@ -646,6 +646,10 @@ func genSnip(r *Rng, depth int) SnipT {
 			vocab = append(vocab, Pick(r, c09Names)) // may be unbound
 		}
 		t := SnipT{K: "tmpl", S: genTmplFormat(r, vocab), Names: names, Args: args}
+		if r.Chance(2) {
+			// a long format: the placeholders sit around a multiple of 4096 bytes (where a buffered reader hands over)
+			t.S = strings.Repeat("x", 4096*(1+r.Intn(2))-r.Intn(1+len(t.S))-r.Intn(4)) + t.S
+		}
 		if k > 0 && r.Chance(18) {
 			// a template nested in a template with the byte-identical format and other bindings (what a per-format cache of
 			// compiled templates would confuse): one argument becomes such a twin, bound to fresh leaves
@@ -674,6 +678,9 @@ func genSnip(r *Rng, depth int) SnipT {
 			}
 		}
 		t := SnipT{K: "sprintf", S: f, Args: args}
+		if r.Chance(2) {
+			t.S = strings.Repeat("x", 4096*(1+r.Intn(2))-r.Intn(1+len(f))-r.Intn(4)) + f
+		}
 		if k > 0 && r.Chance(18) {
 			// the same for Sprintf: an argument that is a Sprintf snippet with the same format
 			twin := SnipT{K: "sprintf", S: f}
@@ -701,7 +708,7 @@ func init() {
 			Name: "tree", Quick: 40000, Thorough: 400000,
 			New:  func() Case { return &snipCase{} },
 			Gen:  func(r *Rng, i int) Case { return snipCase{genSnip(r, 1+r.Intn(3))} },
-			Rule: "random snippet trees (T / Sprintf / Snippets / Comment / GoDirective / Block, depth ≤ 3, bindings among empty, literal, nested and placeholder-looking arguments, raw Go values under %v/%T) rendered through a real SnippetWriter; non-trivial = contains a placeholder, verb, sequence, comment or directive; distinct by tree; every tree is rendered through a fresh writer and through one writer that lives as long as the process (so after renderings that panicked half way), each time followed by a marker snippet: both must write the same bytes and the marker must come out alone",
+			Rule: "random snippet trees (T / Sprintf / Snippets / Comment / GoDirective / Block, depth ≤ 3, bindings among empty, literal, nested and placeholder-looking arguments, one format in fifty padded so that its placeholders sit around a multiple of 4096 bytes, raw Go values under %v/%T) rendered through a real SnippetWriter; non-trivial = contains a placeholder, verb, sequence, comment or directive; distinct by tree; every tree is rendered through a fresh writer and through one writer that lives as long as the process (so after renderings that panicked half way), each time followed by a marker snippet: both must write the same bytes and the marker must come out alone",
 		},
 		{
 			Name: "malformed", Quick: 4000, Thorough: 40000,
